@@ -213,7 +213,7 @@ def l2_backend(name, group, aad, sizes, quick=True, paserk=True, pke=True, publi
     rt("local_roundtrip_m0_f0_a0", 0, 0, 0, "t")
     rt("local_roundtrip_m3_f2", 3, 2, A, q)
     rt("local_roundtrip_m17_f0", 17, 0, 0, "t")
-    rt("local_roundtrip_m33_f1", 33, 1, A, "t")
+    # local_roundtrip_m33_f1 is not registered: 33 bytes exceed the harness library's symbolic byte-string buffer (SMAX = 24)
     if public:
         for n, m, f, a, tiers in (("public_roundtrip_m0_f0_a0", 0, 0, 0, "t"), ("public_roundtrip_m3_f2", 3, 2, A, q)):
             out["C01"].append(H(group, P + n, tiers, timeout=1500, mem=14, mode="lean", replay="native:public_roundtrip",
